@@ -629,4 +629,34 @@ def r13_w(ctx):
     witness_obligations(ctx, "R13.W", [('W3LazyValueBorrows', 'a borrowed LazyValue cannot outlive its input')])
 
 
-RULES = [("R13.1", r13_1), ("R13.2", r13_2), ("R13.3", r13_3), ("R13.4", r13_4), ("R13.5", r13_5), ("R13.6", r13_6), ("R13.6c", r13_6c), ("R13.7", r13_7), ("R13.8", r13_8), ("R13.9", r13_9), ("R13.10", r13_10), ("R13.W", r13_w)]
+def r13_11(ctx):
+    """the exponent marker of a number is accepted in both cases everywhere: a byte dispatch of sonic_rs / sonic_number that has a
+    case for `e` (or `E`) next to another byte of the number alphabet (`.`, `+`, `-`, a digit) sends `E` (`e`) to the same
+    target - a number walker that knows only one of them cuts `-2E3` at the `E` (the span of a lazy child is no longer the
+    number, the one-level parse of its container fails)"""
+    prog = ctx.prog()
+    NUMA = {43, 45, 46} | set(range(48, 58))
+    n = 0
+    for f in sorted(prog.fns.values(), key=lambda g: g.id):
+        if f.crate not in ("sonic_rs", "sonic_number"):
+            continue
+        k = 0
+        for b, t in f.terms():
+            if t["k"] != "switch":
+                continue
+            tg = dict(switch_edges(f, b))
+            has = [c for c in (101, 69) if c in tg]
+            if not has:
+                continue
+            if len(has) == 1 and not (NUMA & set(x for x in tg if x is not None)):
+                continue   # a lone letter test outside a number alphabet (the last byte of `true` / `false`)
+            n += 1
+            k += 1
+            ok = len(has) == 2 and tg[101] == tg[69]
+            ctx.ob("R13.11", f"{short(f.id)}:exponent-marker-both-cases#{k}", ok, f.loc(t.get("ln")),
+                   "`e` and `E` take the same edge" if ok else
+                   "a number alphabet with only one case of the exponent marker (or different edges for `e` and `E`): `1E5` / `1e5` is cut at the marker")
+    ctx.floor("R13.11", "byte dispatches on the exponent marker", n, 4)
+
+
+RULES = [("R13.1", r13_1), ("R13.2", r13_2), ("R13.3", r13_3), ("R13.4", r13_4), ("R13.5", r13_5), ("R13.6", r13_6), ("R13.6c", r13_6c), ("R13.7", r13_7), ("R13.8", r13_8), ("R13.9", r13_9), ("R13.10", r13_10), ("R13.11", r13_11), ("R13.W", r13_w)]
